@@ -9,6 +9,7 @@ mkdir -p "$S"
 cp "$M/patch.diff" "$S/patch.diff"; cp "$M"/demo* "$S/" 2>/dev/null; cp "$M/meta.json" "$S/agent_meta.json" 2>/dev/null
 export CARGO_NET_OFFLINE=true RUST_BACKTRACE=0
 [ "$P" = C20 ] && export RUSTFLAGS="--cfg patronus_verif"
+rf=$(grep -o '"demo_needs_rustflags": *"[^"]*"' "$M/meta.json" | cut -d'"' -f4); [ -n "$rf" ] && export RUSTFLAGS="$rf"
 cd "$R" && git checkout -q -- . && git clean -fdq patronus/tests patronus-dse/tests patronus-egraphs/tests 2>/dev/null
 crate=$(grep -o '"demo_crate": *"[^"]*"' "$M/meta.json" | cut -d'"' -f4); [ -n "$crate" ] || crate=patronus
 name=seeded_demo_$(echo "$ID" | tr 'A-Z-' 'a-z_')
